@@ -423,6 +423,21 @@ def lockOk (n : Node) (nvm : NVMsg) : Bool :=
     && commitmentOk nvm.block (proofHash v.header.proof)
     && nvm.pp.header.hash == proofHash v.header.proof
 
+/-- the tail of `HandleNewView` once the certificate has been checked: fresh proposals go through the
+consumer's validation, then the embedded proposal is adopted like a PREPREPARE of the new view -/
+def adoptNewView (w : W) (nvm : NVMsg) : W :=
+  let hd := nvm.header
+  let ppm : PPMsg := ⟨nvm.pp, nvm.block⟩
+  let (w, ok) :=
+    if (latestVote hd.votes).isNone then askValidate w hd.height hd.view nvm.block nvm.pp.header.hash
+    else (w, true)
+  if !ok then w
+  else if !validatePreprepare w.n ppm then w
+  else
+    let w := { w with n := { w.n with latestNV := hd.view } }
+    let (w, ok) := initView w hd.view
+    if !ok then w else processPreprepare w ppm
+
 def handleNewView (w : W) (nvm : NVMsg) : W :=
   let hd := nvm.header
   if hd.mtype != tNV then w
@@ -432,20 +447,8 @@ def handleNewView (w : W) (nvm : NVMsg) : W :=
   else if !validateVotes w.n hd.height hd.view hd.votes then w
   else if nvm.pp.header.view != hd.view then w
   else if nvm.pp.header.height != hd.height then w
-  else
-    let lv := latestVote hd.votes
-    if !lockOk w.n nvm then w
-    else
-      let ppm : PPMsg := ⟨nvm.pp, nvm.block⟩
-      let (w, ok) :=
-        if lv.isNone then askValidate w hd.height hd.view nvm.block nvm.pp.header.hash
-        else (w, true)
-      if !ok then w
-      else if !validatePreprepare w.n ppm then w
-      else
-        let w := { w with n := { w.n with latestNV := hd.view } }
-        let (w, ok) := initView w hd.view
-        if !ok then w else processPreprepare w ppm
+  else if !lockOk w.n nvm then w
+  else adoptNewView w nvm
 
 /-! ## term start and the step function -/
 
